@@ -14,14 +14,14 @@ from mc.core import Part
 from mc.models import rowmodel
 
 MOD = "mc.props.c14"
-LINE_ENDS = {"lf": ["\n"], "cr": ["\r"], "crlf": ["\r\n"], "any": ["\n", "\r", "\r\n"]}
+LINE_ENDS = {"lf": ["\n"], "cr": ["\r"], "crlf": ["\r\n"], "any": ["\n", "\r", "\r\n"], "none": [""]}
 
 
 def configs(tier):
     result = []
     for preset in ("delimited", "fixed"):
         for header in (0, 1):
-            for line_delimiter in ("lf", "crlf", "any", "cr"):
+            for line_delimiter in ("lf", "crlf", "any", "cr") + (("none",) if preset == "fixed" else ()):
                 for fields, checks in (
                     (["id", "name", "kind"], [["uniq", "IsUnique", "id"], ["dc", "DistinctCount", "kind < 3"]]),
                     (["name", "amount"], []),
